@@ -27,7 +27,7 @@ func runC12(c *Ctx, r *Report, tier string) {
 	r.Rule("KINDS", "renderer covers the parser's kinds; each formatter for exactly its kinds with the matching accessor; same base source", 8)
 	r.Rule("QUOTE", "Quote/Unquote are the only quoting primitives; raw path guard; isPrint = ∀ strconv.IsPrint; iniQuote written only by the reader", 7)
 	r.Rule("FUNNEL", "values are emitted only through writeOption, called only from writeGroupIni", 2)
-	r.Rule("OMIT", "one omission predicate", 2)
+	r.Rule("OMIT", "one omission predicate; it is reflect.DeepEqual on the stored values", 3)
 	r.Rule("NAMES", "written name ∈ {name read, ini-name tag, field name}", 1)
 	r.Rule("MAPKEYS", "map keys sorted before being written", 1)
 	r.Rule("LINES", "long lines are reassembled by copying", 1)
@@ -281,6 +281,11 @@ func runC12(c *Ctx, r *Report, tier string) {
 	}
 	r.Check(okV, "FUNNEL", c.fname(wg), "rendered values flow only into writeOption", c.pos(wg.Pos()), "single emission funnel", "a rendered value is written by something else than writeOption")
 
+	// the writer never uses a value as a format string
+	if n := c.constFormats(r, "QUOTE", "ini.go"); n < 5 {
+		r.Fail("QUOTE", "ini.go", "printf-style calls found", "", fmt.Sprintf("%d, expected ≥ 5", n))
+	}
+
 	// ---- OMIT
 	vd := c.instrs(wg, c.isCallTo("(*Option).valueIsDefault"))
 	okO := len(vd) == 2
@@ -293,6 +298,32 @@ func runC12(c *Ctx, r *Report, tier string) {
 	for _, in := range vd {
 		// the skip: `continue` when ¬IncludeDefaults ∧ valueIsDefault
 		_ = in
+	}
+	// "is the default" compares the stored value itself, not a rendering of it (two different values can render alike)
+	if vid := c.mustFn(r, "(*Option).valueIsDefault"); vid != nil {
+		for _, ret := range returnsOf(vid) {
+			t := c.term(ret.Results[0])
+			ok := t == "false" || t == "true" || strings.HasPrefix(t, "call:reflect.DeepEqual(call:(reflect.Value).Interface(Option.value(P0)), call:(reflect.Value).Interface(") ||
+				strings.HasPrefix(t, "call:reflect.DeepEqual(call:(reflect.Value).Interface(fresh(") && strings.Contains(t, "call:(reflect.Value).Interface(Option.value(P0))")
+			r.Check(ok, "OMIT", c.fname(vid), "default test is value equality", c.ipos(ret), "reflect.DeepEqual(option.value.Interface(), default-applied copy.Interface())", "valueIsDefault returns "+trunc(t, 160)+": not an equality of the stored values")
+		}
+	}
+	// the rendering base is accepted exactly in 2..36
+	if gfb := c.mustFn(r, "getFormatBase"); gfb != nil {
+		for _, ret := range returnsOf(gfb) {
+			if len(ret.Results) != 2 {
+				continue
+			}
+			e := c.term(ret.Results[1])
+			if e == "nil" {
+				_, a := c.Requires(gfb, isInstr(ret), litIs("lt(call:getBase(P0, 10)#0, 2)", false), nil)
+				_, b := c.Requires(gfb, isInstr(ret), litIs("lt(36, call:getBase(P0, 10)#0)", false), nil)
+				r.Check(a && b, "KINDS", c.fname(gfb), "a base is accepted only in 2..36", c.ipos(ret), "REQ(¬ base < 2) ∧ REQ(¬ 36 < base)", fmt.Sprintf("lower bound necessary=%v upper bound necessary=%v", a, b))
+			} else if strings.HasPrefix(e, "call:fmt.Errorf(") {
+				path, ok := c.Requires(gfb, isInstr(ret), anyLit(litIs("lt(call:getBase(P0, 10)#0, 2)", true), litIs("lt(36, call:getBase(P0, 10)#0)", true)), nil)
+				r.Check(ok, "KINDS", c.fname(gfb), "a base is refused only outside 2..36", c.ipos(ret), "REQ(base < 2 ∨ 36 < base)", "a base inside 2..36 is refused, so the value is written as an empty string: "+pathStr(path))
+			}
+		}
 	}
 	skipOK := false
 	for _, b := range c.blocks(wg) {
